@@ -165,7 +165,7 @@ def pauser_plain(cg, pause, probe):
 
 def split_names(prog):
     used = sorted(set(r for ins in prog for r in ins[1] if r in PR.PRELUDE))
-    spare = [r for r in ('V1', 'S1', 'M1', 'V0') if r not in used][0]
+    spare = [r for r in ('V1', 'S1', 'M1', 'V0', 'S0', 'M0', 'T1', 'T0') if r not in used][0]
     return used + [spare]
 
 
